@@ -35,6 +35,79 @@ def run_group(ctx, roots, extra, env, cwd, stdin_roots=False, timeout=45):
     return None, groups
 
 
+def directed_scenarios(ctx, delay_in_script):
+    """(a) nested / repeated input paths with --depth and hidden directories in every order (argv and --stdin): the body must
+    not depend on the order; (b) `$IN` transforms over files with EQUAL BASE NAMES in different directories under 1 and 8
+    hashing threads: the body must not depend on the pool size."""
+    import itertools
+    n = ctx.pick(4, 24)
+    for i in range(n):
+        rng = ctx.rng.fork()
+        base = os.path.join(ctx.scratch, "dir%d" % i).encode()
+        top = os.path.join(base, b"photos")
+        data = treegen.content(rng.next(), 3000)
+        other = treegen.content(rng.next(), 3000)
+        layout = {b"a.bin": data, b"2023/b.bin": data, b"2023/trip/c.bin": data, b"2023/trip/x.bin": other,
+                  b".hid/d.bin": data, b".hid/deep/e.bin": other, b"2024/f.bin": other, b"2024/.h2/g.bin": data}
+        for rel, d in layout.items():
+            pth = os.path.join(top, rel)
+            os.makedirs(os.path.dirname(pth), exist_ok=True)
+            with open(pth, "wb") as f:
+                f.write(d)
+        env0 = {"FCLONES_VERIF_DISK_KIND": "ssd"}
+        root_sets = [[top, os.path.join(top, b"2023")], [top, os.path.join(top, b".hid")],
+                     [top, os.path.join(top, b"2023", b"trip"), os.path.join(top, b"2023")],
+                     [os.path.join(top, b"2024"), top, os.path.join(top, b"2024", b".h2")], [top, top]]
+        for roots in root_sets:
+            for depth in ([], ["--depth", "1"], ["--depth", "2"]):
+                opts = ["--rf-over", "0"] + depth
+                ref = None
+                perms = list(itertools.permutations(roots))[:ctx.pick(3, 6)]
+                for perm in perms:
+                    for stdin_roots in (False, True):
+                        err, groups = run_group(ctx, list(perm), opts, env0, base.decode(), stdin_roots)
+                        ctx.distinct(("nested", i, tuple(roots), tuple(depth), perm, stdin_roots), True)
+                        ctx.bump("variation", "nested_root_order")
+                        payload = {"scenario": "nested input paths", "roots": [r.decode() for r in perm], "opts": opts,
+                                   "stdin": stdin_roots, "layout": sorted(k.decode() for k in layout)}
+                        if err:
+                            ctx.violation({"kind": "hang" if err == "hang" else "run_failed", "variation": "nested_root_order"}, err, payload, found_input=True)
+                            continue
+                        key = treegen.body_key(groups)
+                        if ref is None:
+                            ref = (key, payload)
+                        elif key != ref[0]:
+                            payload["other_order"] = ref[1]["roots"]
+                            payload["listed_here"] = sorted(p.decode() for g in groups for p in g["files"])
+                            payload["listed_there"] = sorted(p.decode() for _, _, fs in ref[0] for p in fs)
+                            ctx.violation({"kind": "body_differs", "variation": "nested_root_order"},
+                                          "the report body depends on the ORDER of (nested) input paths", payload, found_input=True)
+        # (b) equal base names, different contents of equal length, $IN transform, 1 vs 8 threads
+        tdir = os.path.join(base, b"tr")
+        for d in (b"d1", b"d2", b"d3"):
+            for nm in (b"n1", b"n2"):
+                pth = os.path.join(tdir, d, nm)
+                os.makedirs(os.path.dirname(pth), exist_ok=True)
+                with open(pth, "wb") as f:
+                    f.write(treegen.content(rng.next() if (d, nm) != (b"d3", b"n1") else 7, 2000))
+        with open(os.path.join(tdir, b"d1", b"copy_of_d3n1"), "wb") as f:
+            f.write(treegen.content(7, 2000))
+        tr = ["--transform", "python3 %s $IN" % delay_in_script, "--rf-over", "0"]
+        err1, g1 = run_group(ctx, [tdir], tr + ["--threads", "1"], env0, base.decode())
+        err8, g8 = run_group(ctx, [tdir], tr + ["--threads", "ssd:8,8", "--threads", "default:8,8"], env0, base.decode())
+        ctx.distinct(("in_transform", i), True)
+        ctx.bump("variation", "in_transform_threads")
+        payload = {"scenario": "$IN transform over equal base names", "opts": tr}
+        if err1 or err8:
+            ctx.violation({"kind": "hang" if "hang" in (err1, err8) else "run_failed", "variation": "in_transform_threads"},
+                          str(err1 or err8), payload, found_input=True)
+        elif treegen.body_key(g1) != treegen.body_key(g8):
+            payload["threads1"] = [[p.decode() for p in g["files"]] for g in g1]
+            payload["threads8"] = [[p.decode() for p in g["files"]] for g in g8]
+            ctx.violation({"kind": "body_differs", "variation": "in_transform_threads"},
+                          "with a $IN transform the report body depends on the hashing pool size", payload, found_input=True)
+
+
 def run(ctx):
     ctx.rule = ("generated trees (duplicate classes over several roots, hard links, sizes around the 4 KiB prefix / 64 KiB "
                 "buffer / 64 KiB suffix threshold of the SSD pin) x variations; an evaluation is one run of the binary; a case "
@@ -45,6 +118,10 @@ def run(ctx):
     ntrees = ctx.pick(25, 150)
     repeats = ctx.pick(2, 6)
     hangs = {}
+    delay_in_script = os.path.join(ctx.scratch, "delay_in.py")
+    with open(delay_in_script, "w") as f:
+        # transform reading the file named by its argument ($IN): opens it, waits, then copies it to stdout
+        f.write("import sys,time\nf=open(sys.argv[1],'rb')\ntime.sleep(0.05)\nsys.stdout.buffer.write(f.read())\n")
     delay_script = os.path.join(ctx.scratch, "delay.py")
     with open(delay_script, "w") as f:
         # transform that copies stdin to stdout, sleeping first for the file whose content starts with $SLOW_TAG:
@@ -153,5 +230,6 @@ def run(ctx):
         ctx.sample({"tree": ti, "files": len(tree.files), "roots": len(roots), "groups": len(base_groups), "opts": opts})
     # model-level hook (engine G): the extracted model, which Props_C13.v is about, under other nondeterminism records and
     # scan orders must print the body fclones::group_files returned
+    directed_scenarios(ctx, delay_in_script)
     grp_common.model_schedule_check(ctx, ctx.pick(40, 400))
 
